@@ -49,6 +49,35 @@ func genNodeCase(seed uint64, tier, focus, variant string) *simk.Case {
 		ex.Bundles = append(ex.Bundles, genSpec(r, i, np, focus, algo))
 	}
 
+	// targeted template (DESIGN.md §3.2): several transmissions of one bundle fail at the same
+	// moment, their failure reports interleave at the write hooks, then the faults stop
+	if (focus == "C05" || focus == "C13" || focus == "C18") && r.Bool(0.3) {
+		np = r.Range(2, 5)
+		c.Cfg["peers"] = np
+		c.Cfg["concurrent"] = true
+		ex.Bundles = ex.Bundles[:0]
+		sp := genSpec(r, 0, np, focus, algo)
+		sp.Src, sp.Prev, sp.Seq, sp.CT, sp.AgeMs, sp.HopLimit, sp.Unknown, sp.Spray = simNodeEID+"app", 0, 0, "now", -1, -1, nil, 0
+		sp.Dst = "dtn://r1/svc"
+		sp.LifeMs = 7200000
+		sp.Flags = 0
+		ex.Bundles = append(ex.Bundles, sp)
+		first := r.Range(2, np)
+		for _, p := range r.Perm(np)[:first] {
+			c.Ops = append(c.Ops, simk.Op{K: "peer_up", P: p + 1})
+		}
+		c.Ops = append(c.Ops, simk.Op{K: "set_fail", N: 100}, simk.Op{K: "submit", B: 0}, simk.Op{K: "set_fail", N: int64(r.Pick(0, 0, 30))})
+		if r.Bool(0.5) {
+			c.Ops = append(c.Ops, simk.Op{K: "advance", N: int64(r.Range(10500, 12000))})
+		}
+		for p := 1; p <= np; p++ {
+			c.Ops = append(c.Ops, simk.Op{K: "peer_up", P: p})
+		}
+		c.Ops = append(c.Ops, simk.Op{K: "advance", N: int64(r.Range(10500, 23000))})
+		c.Cfg["extra"] = ex
+		return c
+	}
+
 	nops := r.Range(4, 24)
 	if tier == "thorough" && r.Bool(0.3) {
 		nops = r.Range(20, 60)
